@@ -62,6 +62,8 @@ func (f *Require) Call(s *slip.Scope, args slip.List, depth int) slip.Object {
 
 	if 1 < len(args) {
 		switch ta := args[1].(type) {
+		case nil:
+			// use the default, *package-load-path*
 		case slip.String:
 			paths = append(paths, expandPath(string(ta)))
 		case slip.List:
